@@ -8,7 +8,9 @@ THEOREMS = [
 ]
 MODULE = "LV.Gossip.Props"
 TARGETS = ["theories/Gossip/Props.vo", "theories/Gossip/Exec.vo", "theories/Gossip/Examples.vo"]
-WARM = [{"pkg": "discovery", "files": ["discovery/verif_gossip_test.go"]}]
+HFILES = ["discovery/verif_gossip_test.go", "discovery/verif_gossip_store_kv_test.go",
+          "discovery/verif_gossip_store_sql_test.go"]
+WARM = [{"pkg": "discovery", "files": HFILES}]
 IMPORTS = ("From Coq Require Import List NArith Bool.\nImport ListNotations.\n"
            "From LV Require Import Gossip.Model Gossip.Exec.\n")
 
@@ -105,8 +107,8 @@ def case_term(case):
             if p not in seen:
                 seen.add(p)
                 bans2.append(b)
-        steps.append("mkStep %s %s %s %s %s %s %s %s" % (
-            n(s["now"]), n(s["peer"]), n(cid(m["cid"])), msg_term(m), verdict_term(s["res"]),
+        steps.append("mkStep %s %s %s %s %s %s %s %s %s" % (
+            cbool(s.get("restart")), n(s["now"]), n(s["peer"]), n(cid(m["cid"])), msg_term(m), verdict_term(s["res"]),
             clist(resolved), snap_term(s["G"]), clist(bans2)))
     bc = sorted((cid(h), c) for h, c in case["bcast"].items())
     cfg = "(mkCfg %s 1%%N %s false %s %s %s)" % (n(case["own"]), n(case["best"]), n(case["rebroadcast"]),
@@ -144,6 +146,8 @@ def predicate(case):
     effect = {}        # content id -> number of graph changes it caused
     for s in case["steps"]:
         i, m, orc, g = s["i"], s["m"], s["orc"], s["G"]
+        if s.get("restart"):
+            pend = {}      # parked updates died with the old gossiper
         cp = {c[0]: c for c in gp["chans"]}
         cn = {c[0]: c for c in g["chans"]}
         np_ = {x[0]: x for x in gp["nodes"]}
@@ -200,9 +204,11 @@ def predicate(case):
                           (oldp[d] is None or oldp[d][0] < hit["ts"]) and hit["chain"] == 1 and
                           (hit["mf"] & 1) and hit["max"] > 0 and hit["max"] >= hit["min"] and
                           (capm == 0 or hit["max"] <= capm)):
-                    fails.append("step %d: policy %d/%d updated by an update that is not "
-                                 "authentic/fresh/consistent: %s (old %s, cap %d)" %
-                                 (i, scid, d, hit, oldp[d], c[5]))
+                    why = ("policy replaced by a not-strictly-newer update"
+                           if (oldp[d] is not None and oldp[d][0] >= hit["ts"])
+                           else "updated by an update that is not authentic/consistent")
+                    fails.append("step %d: policy %d/%d %s: %s (old %s, cap %d)" %
+                                 (i, scid, d, why, hit, oldp[d], c[5]))
                 else:
                     effect[hit["cid"]] = effect.get(hit["cid"], 0) + 1
         for k in np_:
@@ -257,34 +263,49 @@ def run(ctx):
         "input.GenFundingPkScript, independently of the gossiper",
         "funding clause proved for AssumeChannelValid=false (alias SCIDs are rejected for remote "
         "announcements before any graph access)"])
-    tags = "verif test_db_sqlite" if (ctx.thorough and ctx.seed % 2 == 0) else "verif"
-    env = {}
+    # Both graph-store backends on every run: bbolt with the full case count, sqlite with a
+    # smaller batch (its own seed stream), concurrently.
+    import os as _os
+    from concurrent.futures import ThreadPoolExecutor
+    ncases_env = _os.environ.get("VERIF_CASES")
+    jobs = [("bbolt", ctx.uid(), "verif", {}),
+            ("sqlite", ctx.uid("sql"), "verif test_db_sqlite",
+             {} if ncases_env else {"VERIF_CASES": "600" if ctx.thorough else "45"})]
     if ctx.replay:
-        # --replay: re-run exactly the recorded case (same seed, same case index)
+        # --replay: re-run exactly the recorded case (same seed, case index, backend)
         import json as _json
         rp = _json.load(open(ctx.replay))
         det = rp.get("detail") or {}
         if "case" in det:
-            env = {"VERIF_SEED": str(rp.get("seed", ctx.seed)), "VERIF_CASE_ONLY": str(det["case"]),
-                   "VERIF_TIER": rp.get("tier", ctx.tier)}
-    rc, trace, out = run_harness(ctx.uid(), "discovery", ["discovery/verif_gossip_test.go"],
-                                 "^TestVerifGossip$", timeout=2400, tags=tags, env=env,
-                                 extra=["-parallel", "6"])
-    rows = sorted(read_jsonl(trace), key=lambda r: r["case"])
-    if rc != 0 or not rows:
-        ctx.violation("harness_failed", "TestVerifGossip", {"log": out[-6000:]},
-                      signature="harness", failing_input=False)
-        return
+            renv = {"VERIF_SEED": str(rp.get("seed", ctx.seed)), "VERIF_CASE_ONLY": str(det["case"]),
+                    "VERIF_TIER": rp.get("tier", ctx.tier), "VERIF_CASES": str(int(det["case"]) + 1)}
+            jobs = [(bk, uid, tg, renv) for bk, uid, tg, _ in jobs if bk == det.get("backend", "bbolt")]
+
+    def one(job):
+        bk, uid, tg, env = job
+        rc, trace, out = run_harness(uid, "discovery", HFILES, "^TestVerifGossip$", timeout=2400,
+                                     tags=tg, env=env, extra=["-parallel", "5"])
+        return bk, rc, sorted(read_jsonl(trace), key=lambda r: r["case"]), out
+
+    rows = []
+    with ThreadPoolExecutor(max_workers=2) as ex:
+        for bk, rc, rws, out in ex.map(one, jobs):
+            if rc != 0 or not rws:
+                ctx.violation("harness_failed", "TestVerifGossip (%s)" % bk, {"log": out[-6000:]},
+                              signature="harness", failing_input=False)
+                return
+            rows += rws
     nfail = 0
     pred_bad = set()
     for c in rows:
         f = predicate(c)
         if f:
-            pred_bad.add(c["case"])
+            pred_bad.add((c["backend"], c["case"]))
             nfail += 1
             if nfail <= 3:
                 ctx.violation("impl_violates_predicate", "C20 authenticity predicate",
-                              {"seed": ctx.seed, "case": c["case"], "fails": f[:6],
+                              {"seed": ctx.seed, "case": c["case"], "backend": c["backend"],
+                               "fails": f[:6],
                                "steps": [{k: s[k] for k in ("i", "tag", "m", "orc", "res", "resolved", "G")}
                                          for s in c["steps"]], "bcast": c["bcast"]},
                               signature="gossip predicate: %s" % f[0])
@@ -297,23 +318,25 @@ def run(ctx):
         c = rows[ci]
         first = [s for s in c["steps"] if s["i"] in idx[:3]]
         ctx.violation("correspondence_mismatch", "Gossip.Exec.check_case",
-                      {"seed": ctx.seed, "case": c["case"], "kind": c["kind"],
+                      {"seed": ctx.seed, "case": c["case"], "backend": c["backend"], "kind": c["kind"],
                        "disagreeing_steps": idx,
                        "steps": [{k: s[k] for k in ("i", "tag", "m", "orc", "res", "resolved", "ban", "G")}
                                  for s in first],
                        "bcast": c["bcast"],
-                       "replay": "VERIF_SEED=%d VERIF_CASE_ONLY=%d ./check C20" % (ctx.seed, c["case"])},
-                      signature="gossip mismatch", failing_input=(c["case"] in pred_bad))
+                       "replay": "./check C20 --replay <this file>"},
+                      signature="gossip mismatch",
+                      failing_input=((c["backend"], c["case"]) in pred_bad))
     if not pr["ok"] and not ctx.violations:
         ctx.violation("proof_broken", ", ".join(pr["broken"]) or "Gossip build",
                       {"log": pr["log"][-4000:]}, signature="proof", failing_input=False)
     tags_h, verd, types, kinds = {}, {}, {}, {}
-    nsteps = changed = relayed = pending = 0
+    nsteps = changed = relayed = pending = restarts = 0
     for c in rows:
         kinds[c["kind"]] = kinds.get(c["kind"], 0) + 1
         relayed += sum(c["bcast"].values())
         for s in c["steps"]:
             nsteps += 1
+            restarts += 1 if s.get("restart") else 0
             t = s["tag"].split("_resigned")[0]
             tags_h[t] = tags_h.get(t, 0) + 1
             verd[s["res"]] = verd.get(s["res"], 0) + 1
@@ -337,9 +360,11 @@ def run(ctx):
         "steps_changing_graph_or_indexes": changed,
         "messages_broadcast": relayed,
         "premature_updates_replayed": pending,
+        "restarts_on_cold_store": restarts,
         "predicate_failures": nfail,
         "correspondence_mismatches": len(bad),
-        "graph_backend": "sqlite" if "sqlite" in tags else "bbolt",
+        "graph_backends": {b: sum(1 for r in rows if r.get("backend") == b)
+                           for b in ("bbolt", "sqlite")},
         "samples": [[(s["tag"], s["res"]) for s in rows[0]["steps"][:8]]],
     })
     ctx.assumptions += [
